@@ -66,7 +66,19 @@ def target_dir(sub):
     return os.path.join(HARNESS, "target", sub)
 
 
+BIN_OVERRIDE = {}
+ENV_OVERRIDE = {}
+
+
+def sub_env(sub):
+    e = dict(os.environ)
+    e.update(ENV_OVERRIDE.get(sub, {}))
+    return e
+
+
 def bin_path(sub):
+    if sub in BIN_OVERRIDE:
+        return BIN_OVERRIDE[sub]
     prof = "debug" if sub == "dbg" else "release"
     return os.path.join(target_dir(sub), prof, "tdcheck")
 
@@ -118,7 +130,7 @@ def replay_case(sub, pid, case, timeout=120, tolerate_known=False):
     if tolerate_known:
         cmd.append("--tolerate-known")
     try:
-        p = subprocess.run(cmd, stdout=subprocess.PIPE, stderr=subprocess.PIPE, text=True, timeout=timeout)
+        p = subprocess.run(cmd, stdout=subprocess.PIPE, stderr=subprocess.PIPE, text=True, timeout=timeout, env=sub_env(sub))
     except subprocess.TimeoutExpired:
         return "timeout", ""
     finally:
@@ -235,7 +247,7 @@ def run_native(sub, pid, tier, seed, threads, timeout, extra=None):
     if extra:
         cmd += extra
     t0 = time.time()
-    p = subprocess.Popen(cmd, stdout=subprocess.PIPE, stderr=subprocess.PIPE, text=True)
+    p = subprocess.Popen(cmd, stdout=subprocess.PIPE, stderr=subprocess.PIPE, text=True, env=sub_env(sub))
     return {"sub": sub, "proc": p, "wd": wd, "t0": t0, "timeout": timeout, "pid": pid, "seed": seed}
 
 
@@ -404,11 +416,8 @@ def main(argv, verif):
     results = [finish_native(h) for h in handles]
 
     if tier == "thorough":
-        try:
-            import thorough
-            results += thorough.run_extra(sys.modules[__name__], pid, seed)
-        except ImportError:
-            pass
+        import thorough
+        results += thorough.run_extra(sys.modules[__name__], pid, seed)
 
     violations = []
     inconclusive = []
